@@ -87,3 +87,36 @@ def r03_6_rounding_helpers_exact(ctx: Ctx) -> RuleResult:
             rr.ok({"helper": q, "integer_path": " ; ".join(unparse(s)[:60] for s in int_path)[:160]})
     # the callers pass integers: every call site's operands are typed int (float callers use the other branch knowingly)
     return rr
+
+
+@rule("C03")
+def r03_7_unix_time_floors(ctx: Ctx) -> RuleResult:
+    """to_unix_time_<unit>() is documented to truncate towards the start of time: for an instant d days + n nanoseconds past the
+    epoch (floor form, 0 <= n < day) the result lies in [d * units_per_day, (d + 1) * units_per_day - 1] - also for negative d."""
+    from ..absint import Iv, Obj
+    from ..oblig import interp as mk
+
+    rr = RuleResult("R03.7", "Instant.to_unix_time_seconds / _milliseconds / _ticks round towards the start of time: for d days + n ns (floor form) the result stays inside day d's window of units, for negative d as well", min_instances=6)
+    M = ctx.M
+    NPD = M.fold_class_const("PyodaConstants", "NANOSECONDS_PER_DAY")
+    for nm, const in (("to_unix_time_seconds", "SECONDS_PER_DAY"), ("to_unix_time_milliseconds", "MILLISECONDS_PER_DAY"), ("to_unix_time_ticks", "TICKS_PER_DAY")):
+        f = M.func(f"Instant.{nm}", required=False)
+        upd = M.fold_class_const("PyodaConstants", const)
+        if f is None or not isinstance(upd, int) or not isinstance(NPD, int):
+            raise AnalysisError(f"Instant.{nm} / PyodaConstants.{const} missing")
+        for d in (-5, 3):
+            rr.inst()
+            rr.states += 1
+            I = mk(ctx)
+            I.max_depth = 6
+            dur = Obj("Duration", {mangle("Duration", "__days"): Iv(d, d), mangle("Duration", "__nano_of_day"): Iv(1, NPD - 1), "$exact": Iv(1, 1)})
+            so = Obj("Instant", {mangle("Instant", "__duration"): dur})
+            rets, _ = I.analyse(f, self_obj=so)
+            vals = [v for v, _ in rets]
+            lo, hi = d * upd, (d + 1) * upd - 1
+            ok = bool(vals) and all(isinstance(v, Iv) and v.within(lo, hi) for v in vals)
+            if ok:
+                rr.ok({"fn": f.qual, "days": d, "result": repr(vals[0]), "window": [lo, hi]})
+            else:
+                rr.fail(f.qual, f"for {d} days + n ns (0 < n < one day) the result is {vals}, outside day {d}'s window [{lo}, {hi}]: the value is not truncated towards the start of time (instants before 1970 round the wrong way)", f.loc)
+    return rr
